@@ -168,10 +168,14 @@ def check(case):
     t = to_odict(case["tree"])
     labels = ["vendor:" + vendor]
     res = {}
-    for name in ("A", "B"):
+    from vf.props.c20 import _acl_digest
+    for ai, name in enumerate(("A", "B")):
         rules = case[name]
-        text = RA.acl_text(rules)
+        # the literal as a generator's source has it: a leading newline and a common left margin (the first rule's indent is the base level)
+        pad = " " * (case.get("acl_indents") or [0, 0])[ai]
+        text = "\n" + "".join(pad + l + "\n" for l in RA.acl_lines(rules))
         comp = compile_acl_text(text, vendor)
+        before = _acl_digest(comp)
         got = apply_acl(t, comp)
         exp = RA.ref_filter(t, RA.ACtx.top([(name, rules)], norm, rev))
         det = {"acl": text, "got": plain(got), "expected": plain(exp)}
@@ -202,12 +206,21 @@ def check(case):
                 labels.append("nested-result")
         if any(k.startswith("inactive: ") for k in _all_rows(got)):
             labels.append("jun-inactive-kept")
+        if _acl_digest(comp) != before:
+            # the compiled ACL is cached and shared: filtering is a pure function of (configuration, ACL) only if matching leaves what
+            # the ACL decides (deletability, ownership, priority per rule) alone
+            raise Violation("acl-modified-by-filtering", f"after filtering with {name} the compiled ACL decides differently for some rule", det)
     named = [("A", case["A"]), ("B", case["B"])]
     ctext = sut.production_acl_text(named, case.get("acl_indents"), case.get("acl_comments", 0))
     if _nocomment(ctext) != RA.combined_text(named):
         raise Violation("acl-merge-text", "the combined ACL text differs from 'every line of every generator, dedented, tagged'",
                         {"got": ctext, "expected": RA.combined_text(named)})
-    ab = apply_acl(t, compile_acl_text(ctext, vendor))
+    cab = compile_acl_text(ctext, vendor)
+    before_ab = _acl_digest(cab)
+    ab = apply_acl(t, cab)
+    if _acl_digest(cab) != before_ab:
+        raise Violation("acl-modified-by-filtering", "after filtering with the merged ACL the compiled ACL decides differently for some rule",
+                        {"acl": ctext})
     expab = RA.ref_filter(t, RA.ACtx.top(named, norm, rev))
     det = {"acl": ctext, "got": plain(ab), "expected": plain(expab)}
     for name in ("A", "B"):
